@@ -11,6 +11,7 @@ PID = "C44"
 TITLE = "Heartbeats detect dead idle connections without leaking capacity"
 LEVEL = "exploration"
 ENGINE = "sim"
+THOROUGH_SCALE = 1.0
 SERIAL = os.environ.get("VERIF_TIER") == "quick"   # heavily loaded machine: a forked pool is slower than one process
 TECHNIQUE = ("model-based generation of heartbeat rounds (Hypothesis) over the real Cluster/ConnectionHeartbeat/pools/"
              "control connection on a deterministic simulated network and virtual clock; the fake servers' frame log is "
@@ -44,6 +45,7 @@ def s_case(gran):
         "pv": st.sampled_from([4, 4, 2]),
         "hosts": st.integers(1, 3),
         "convict": st.sampled_from([True, True, False]),
+        "orderly": st.booleans(),
         "rounds": st.lists(rnd, min_size=2, max_size=4),
         "tape": st.lists(st.integers(0, 3), max_size=30 if gran == "locks" else 8),
         "gran": st.just(gran),
@@ -182,7 +184,7 @@ def _run(case, ctx, sim):
                 sim.settle()
             elif slot["pre"] == "dead":
                 for c in conns[:1]:
-                    net.server_close(c)
+                    net.server_close(c, eof=bool(case.get("orderly")))      # reset, or orderly close (EOF)
                 sim.settle()
         sim.settle()
         # ---- just before the round: what the round will find
